@@ -650,7 +650,7 @@ func c16Systematic(scope int) []string {
 var c16Runes = []rune{'a', 'b', 'c', 'z', 'A', ' ', '_', '0', '\'', '\\', 0x7f, 0x80, 0xe9, 0x301, 0x7ff, 0x800, 0x20ac, 0xd7ff, 0xe000, 0xfffc, 0xfffd,
 	0xffff, 0x10000, 0x1f600, 0x10ffff}
 
-func randText(r *rand.Rand, min, max int) []string {
+func randText_c16(r *rand.Rand, min, max int) []string {
 	n := min + r.Intn(max-min+1)
 	out := make([]string, n)
 	for i := range out {
@@ -701,10 +701,10 @@ func genC16Random(r *rand.Rand) string {
 	v := 0
 	switch r.Intn(15) {
 	case 0:
-		cs := randText(r, 4, 12)
+		cs := randText_c16(r, 4, 12)
 		return c16Case("atom_length", c16K, wA_c16(join(cs)), maybe(r, &v, wI_c16(int64(len(cs)))))
 	case 1:
-		cs := randText(r, 4, 12)
+		cs := randText_c16(r, 4, 12)
 		i := r.Intn(len(cs) + 1)
 		a, b, c := maybe(r, &v, wA_c16(join(cs[:i]))), maybe(r, &v, wA_c16(join(cs[i:]))), wA_c16(join(cs))
 		if v < 2 && r.Intn(3) == 0 {
@@ -712,13 +712,13 @@ func genC16Random(r *rand.Rand) string {
 		}
 		return c16Case("atom_concat", c16K, a, b, c)
 	case 2:
-		cs := randText(r, 4, 10)
+		cs := randText_c16(r, 4, 10)
 		i := r.Intn(len(cs) + 1)
 		j := i + r.Intn(len(cs)-i+1)
 		return c16Case("sub_atom", c16K, wA_c16(join(cs)), maybe(r, &v, wI_c16(int64(i))), maybe(r, &v, wI_c16(int64(j-i))),
 			maybe(r, &v, wI_c16(int64(len(cs)-j))), maybe(r, &v, wA_c16(join(cs[i:j]))))
 	case 3, 4:
-		cs := randText(r, 4, 12)
+		cs := randText_c16(r, 4, 12)
 		p, es := "atom_chars", charListW(cs)
 		if r.Intn(2) == 0 {
 			p, es = "atom_codes", codeListW(cs)
